@@ -139,6 +139,8 @@ def build_reference():
     idx = cfront.generate_units()
     out = {}
     todo = sorted((name, meta["unit"], meta) for name, meta in idx["models"].items() if meta.get("kind") == "c")
+    todo += sorted((name + "@opencl", meta["cl_unit"], dict(meta, config="opencl", name_override=name))
+                   for name, meta in idx["models"].items() if meta.get("kind") == "c" and meta.get("cl_unit"))
     if idx.get("witness"):
         todo.append(("_reparam_witness", idx["witness"]["unit"], idx["witness"]))
     for name, path, meta in todo:
